@@ -29,7 +29,7 @@ use std::time::Duration;
 pub static INFO: PropInfo = PropInfo {
     id: "C05",
     level: "exploration",
-    rule: "one evaluation = one run against a fresh secure server (plus a second server instance with the same key, protocol id and address for stale challenges): honest NetcodeClient handshakes and hand-driven handshakes, then the scripted attacker repertoire (tokens presented at server times floor(t) = expire-1 / expire / expire+1; every single-field corruption of the request: version, protocol id, expiry, nonce, sealed token head / middle / MAC, zeroed token, plus sampled single-bit flips; tokens sealed under a foreign key, for a foreign protocol id (public field and / or sealed AAD), listing only foreign hosts; a token replayed from a second address before and after the first address completed; responses from an unknown address and from an address half-open for another token; challenges cross-used between sessions the attacker owns, including two tokens with the same client id and different user data; challenges of the other server instance; corrupted challenges; observed honest datagrams replayed from other addresses; a response delivered after the server clock passed the token's expiry in one step or in sub-second steps of 1..999 ms), then 40..160 seeded random request / response / time-advance / disconnect operations over all tokens, addresses and collected challenges. Every ClientConnected is judged against the token ledger (who was minted what, which request came from where at which server time) and the challenge ledger (which blob this server issued in answer to a request of which client id; blobs are recovered by opening replies with the token's server-to-client key). One run in 12 has a FLOOD script: a token completes a handshake from X and the session ends, more than 2048 well-formed requests with random bytes in place of the sealed token arrive from other addresses, then the recorded request and response are replayed from Y (the record 'used from X' must have survived). One script presents a 2 s token while it is valid (sometimes completing and ending the session, sometimes repeating the request), lets it expire and then sends, from the same address, the same request with the header expiry rewritten into the future (alone, with the nonce changed, with sealed bytes changed while the trailing MAC stays) and the unchanged one, each followed by a response. Non-trivial = at least one honest connect and at least 10 refused attack attempts in the run; distinct = distinct fingerprints of the (operation, result kind) history.",
+    rule: "one evaluation = one run against a fresh secure server (plus a second server instance with the same key, protocol id and address for stale challenges): honest NetcodeClient handshakes and hand-driven handshakes, then the scripted attacker repertoire (tokens presented at server times floor(t) = expire-1 / expire / expire+1; every single-field corruption of the request: version, protocol id, expiry, nonce, sealed token head / middle / MAC, zeroed token, plus sampled single-bit flips; tokens sealed under a foreign key, for a foreign protocol id (public field and / or sealed AAD), listing only foreign hosts; a token replayed from a second address before and after the first address completed; responses from an unknown address and from an address half-open for another token; challenges cross-used between sessions the attacker owns, including two tokens with the same client id and different user data; challenges of the other server instance; corrupted challenges; observed honest datagrams replayed from other addresses; a response delivered after the server clock passed the token's expiry in one step or in sub-second steps of 1..999 ms), then 40..160 seeded random request / response / time-advance / disconnect operations over all tokens, addresses and collected challenges. Every ClientConnected is judged against the token ledger (who was minted what, which request came from where at which server time) and the challenge ledger (which blob this server issued in answer to a request of which client id; blobs are recovered by opening replies with the token's server-to-client key). One run in 12 has a FLOOD script: a token completes a handshake from X and the session ends, more than 2048 well-formed requests with random bytes in place of the sealed token arrive from other addresses, then the recorded request and response are replayed from Y (the record 'used from X' must have survived). One script presents a 2 s token while it is valid (sometimes completing and ending the session, sometimes repeating the request), lets it expire and then sends, from the same address, the same request with the header expiry rewritten into the future (alone, with the nonce changed, with sealed bytes changed while the trailing MAC stays) and the unchanged one, each followed by a response. Non-trivial = at least one honest connect and at least 10 refused attack attempts in the run; distinct = distinct fingerprints of the (operation, result kind) history. A sixth of the fresh addresses are IPv6 link-local addresses with a zone (scope id), each followed by its twin - the same ip and port on another link - which is a different address for every rule above.",
     assumptions: &[
         "AEAD unforgeability assumed; the attacker only uses keys of tokens it was legitimately issued and datagrams it observed",
         "fewer than 2048 distinct tokens per server instance (token-entry table never evicts)",
